@@ -175,6 +175,25 @@ func loadWorldStage(cfg LoadConfig, base map[string][]byte, forceHelper map[stri
 	var missing []string
 	renames := map[string]string{}
 	if !noNormalise && !anyModuleErrors(roots) {
+		// renamed unexported types first: the source is rewritten to the inventory names and loaded again
+		if tov, tnotes := renameTypesBack(roots, loadInventory()); tov != nil {
+			merged := map[string][]byte{}
+			for k, v := range base {
+				merged[k] = v
+			}
+			for k, v := range tov {
+				merged[k] = v
+			}
+			pcT := *pc
+			pcT.Overlay = merged
+			if rootsT, errT := packages.Load(&pcT, "./..."); errT == nil && !anyModuleErrors(rootsT) {
+				roots, base = rootsT, merged
+				pc.Overlay = merged
+				normNotes = append(normNotes, tnotes...)
+			} else {
+				normNotes = append(normNotes, "a renamed type was recognised but the tree with the inventory name put back does not type-check (the old name is in use for something else); types are analysed under their new names")
+			}
+		}
 		inv := loadInventory()
 		for k := range forceHelper {
 			delete(inv, k)
